@@ -13,7 +13,7 @@
     however often it retries ([C05_third_side_open_refused], and the crowded
     branches of C01_open_outcome / C07_claim_outcome). *)
 From MW Require Import Base Store Monad Usage Server Websocket Service Findings Inv Obs
-     ProtoFacts StepFacts SweepFacts NpFactsA MbFactsA MbFactsB CrowdFacts Inst_Params CrashLife TwoSidesEver.
+     ProtoFacts StepFacts SweepFacts NpFactsA MbFactsA MbFactsB CrowdFacts Inst_Params CrashLife TwoSidesEver DeliveryFacts.
 Local Open Scope list_scope.
 
 (** over every non-crash event, for every mailbox id still alive: the side list only got longer at the end *)
@@ -118,6 +118,17 @@ Print Assumptions C05_message_frames_to_served.
 Theorem C05_served_in_spec : ltac:(let t := type of served_in_spec in exact t).
 Proof. exact served_in_spec. Qed.
 Print Assumptions C05_served_in_spec.
+
+(** attribution (DeliveryFacts.v): the message frame goes to a side that [served_in] lists for THAT mailbox *)
+Theorem C05_message_frames_to_served_of : ltac:(let t := type of message_frames_to_served_of in exact t).
+Proof. exact message_frames_to_served_of. Qed.
+Check C05_message_frames_to_served_of.
+Print Assumptions C05_message_frames_to_served_of.
+
+Theorem C05_message_frames_first_two_of : ltac:(let t := type of message_frames_first_two_of in exact t).
+Proof. exact message_frames_first_two_of. Qed.
+Print Assumptions C05_message_frames_first_two_of.
+
 
 Example C05_two_sides_ever_nonvacuous : ltac:(let t := type of two_sides_ever_nonvacuous in exact t).
 Proof. exact two_sides_ever_nonvacuous. Qed.
